@@ -20,7 +20,7 @@ fn stream_env(cfg: &Cfg, ctl: &StreamCtl) {
 }
 
 pub fn list() -> Vec<(&'static str, super::Scenario)> {
-    vec![("pipe_drop_output", pipe_drop_output), ("pipe_in_items", pipe_in_items), ("pipe_out", pipe_out), ("pipe_steal", pipe_steal), ("pipe_rewake", pipe_rewake), ("pipe_partial", pipe_partial)]
+    vec![("pipe_drop_output", pipe_drop_output), ("pipe_in_items", pipe_in_items), ("pipe_out", pipe_out), ("pipe_steal", pipe_steal), ("pipe_rewake", pipe_rewake), ("pipe_partial", pipe_partial), ("pipe_fs", pipe_fs)]
 }
 
 fn dobj(w: &World) -> (Arc<Desync<Payload>>, Arc<ObjState>) {
@@ -672,6 +672,65 @@ fn pipe_partial(cfg: &Cfg) {
     drop(out);
     rt::quiesce();
     w.check_quiet();
+    drop(obj);
+    check_no_unplanned_panics();
+    rt::quiesce();
+    shutdown();
+}
+
+/// C12 (+C03): no pool thread; a pipe feeds a Desync that is also used through future_sync.  The task that awaits the
+/// future_sync runs the queue itself, which makes it the pipe's producer; the processing future yields cooperatively (wakes
+/// itself and returns Pending) `y` times per item.  Every output and the end of the stream must reach the consumer.
+fn pipe_fs(cfg: &Cfg) {
+    setup(0);
+    let (n, y) = (cfg.get("n") as u32, cfg.opt("y", 1));
+    let w = World::new();
+    w.prelude(cfg);
+    let (obj, st) = dobj(&w);
+    let (stream, ctl) = scripted_stream(&[]);
+    stream_env(cfg, &ctl);
+    let st2 = st.clone();
+    let mut out = pipe(obj.clone(), stream, move |p: &mut Payload, item: u32| {
+        p.check("pipe-item");
+        let st3 = st2.clone();
+        async move {
+            st3.enter("pipe-item");
+            for _ in 0..y {
+                YieldOnce(false).await;
+            }
+            st3.exit();
+            item + 100
+        }
+        .boxed()
+    });
+    // (the pipe's first poll ran inside pipe() and found the input empty; the items arrive now: a poll job is queued and nobody
+    // runs it until the task below awaits its future_sync)
+    for i in 1..=n {
+        ctl.push(i);
+    }
+    ctl.end();
+    let wobj = Obj::D(obj.clone(), st.clone());
+    w.future_sync(&wobj, "FS", Body::plain()).wait();
+    let prev = rt::note("in:pipe-consumer");
+    let mut got = vec![];
+    while let Some(v) = block_on(out.next()) {
+        got.push(v);
+        if got.len() > n as usize + 2 {
+            break;
+        }
+    }
+    rt::note(&prev);
+    let expect: Vec<u32> = (1..=n).map(|i| i + 100).collect();
+    if got != expect {
+        rt::violation(format!("PIPE-OUT-ITEMS consumer received {:?}, expected {:?} then end of stream", got, expect));
+    }
+    drop(out);
+    rt::quiesce();
+    for round in 0..2 {
+        w.sync(&wobj, &format!("kick{}", round), Body::plain());
+    }
+    w.check_quiet();
+    drop(wobj);
     drop(obj);
     check_no_unplanned_panics();
     rt::quiesce();
